@@ -20,15 +20,15 @@ use std::io::{BufReader, Read, Write};
 
 use pgp::armor::Dearmor;
 use pgp::composed::{
-    CleartextSignedMessage, DecryptionOptions, Deserializable, DetachedSignature, Edata, Message,
-    MessageBuilder, PlainSessionKey, SignedPublicKey, SignedSecretKey, TheRing,
+    ArmorOptions, CleartextSignedMessage, DecryptionOptions, Deserializable, DetachedSignature, Edata, Message,
+    MessageBuilder, PlainSessionKey, SignedPublicKey, SignedSecretKey, TheRing, VerificationResult,
 };
 use pgp::crypto::aead::{AeadAlgorithm, ChunkSize};
 use pgp::crypto::hash::HashAlgorithm;
 use pgp::crypto::sym::SymmetricKeyAlgorithm;
-use pgp::packet::{Packet, PacketParser, PacketTrait, ProtectedDataConfig, SymEncryptedProtectedDataConfig};
+use pgp::packet::{DataMode, Packet, PacketParser, PacketTrait, ProtectedDataConfig, SymEncryptedProtectedDataConfig};
 use pgp::ser::Serialize;
-use pgp::types::{CompressionAlgorithm, Password, Seipdv1ReadMode, StringToKey};
+use pgp::types::{CompressionAlgorithm, Password, Seipdv1ReadMode, StringToKey, VerifyingKey};
 use rand::{Rng, SeedableRng};
 use rand_chacha::ChaCha8Rng;
 use serde_json::json;
@@ -2417,6 +2417,653 @@ fn judge_stream(ctx: &mut Ctx, side: &str, cfg: &StreamCfg, peaks: &[(u64, u64, 
 }
 
 // ------------------------------------------------------------------------------------------
+// W3s: streaming — every public way of consuming a message.
+//
+// W3 (b) measures the plain `read` loop only. "Streaming a message keeps a bounded buffer regardless
+// of message size" is a statement about the message, whatever API the application consumes it with:
+// here every consumer the public API offers that does not hand the data back in one piece
+// (`read` with large / small buffers, `BufRead::fill_buf`/`consume` whole and partial, `io::copy`,
+// `Read::take` + drop, `verify_read`, read + `verify`/`verify_nested_explicit`, read + `verify_nested`,
+// `Edata::decrypt*` + read / fill_buf) is run over signed / compressed / encrypted / armored /
+// combined messages of two (thorough: three) sizes, opened through every decryption entry point
+// and option set, from a small-window and from a whole-slice source. Same criterion as W3.
+// `as_data_vec` / `as_data_string` / `read_to_end` are excluded: they return the data.
+
+#[derive(Clone, Copy, Debug, PartialEq, Eq)]
+enum Cont {
+    Plain,
+    V1,
+    V2(AeadAlgorithm, ChunkSize),
+    /// legacy tag 9 container, made by the reference (the library cannot produce it)
+    Sed,
+    /// GnuPG/LibrePGP OCB container (tag 20) with this chunk-size octet, made by the reference
+    G20(u8),
+}
+
+#[derive(Clone, Copy, Debug)]
+struct ConsCfg {
+    comp: Option<CompressionAlgorithm>,
+    cont: Cont,
+    nsig: usize,
+    text: bool,
+    armored: bool,
+}
+
+impl ConsCfg {
+    fn name(&self) -> String {
+        format!(
+            "{}/{}{}{}",
+            match self.comp {
+                None => "none".to_string(),
+                Some(c) => format!("{c:?}"),
+            },
+            match self.cont {
+                Cont::Plain => "plain".to_string(),
+                Cont::V1 => "seipd1".to_string(),
+                Cont::V2(a, c) => format!("seipd2-{a:?}-{c:?}"),
+                Cont::Sed => "sed".to_string(),
+                Cont::G20(c) => format!("gnupg-ocb-c{c}"),
+            },
+            match (self.nsig, self.text) {
+                (0, _) => "".to_string(),
+                (1, false) => "/signed".to_string(),
+                (1, true) => "/signed-text".to_string(),
+                (n, false) => format!("/signed-x{n}"),
+                (n, true) => format!("/signed-text-x{n}"),
+            },
+            if self.armored { "/armored" } else { "" }
+        )
+    }
+    /// documented buffers that do not depend on the size of the message
+    fn fixed(&self) -> u64 {
+        (match self.cont {
+            Cont::V2(_, c) => 3 * (c.as_byte_size() as u64 + 64),
+            Cont::G20(c) => 3 * ((1u64 << (c as u32 + 6)) + 64),
+            _ => 0,
+        }) + if self.comp == Some(CompressionAlgorithm::BZip2) { BZIP2_ALLOW } else { 0 }
+    }
+    /// bzip2 runs at ~10 MB/s: its largest size is 64 MiB
+    fn slow(&self) -> bool {
+        self.comp == Some(CompressionAlgorithm::BZip2)
+    }
+    /// configurations that are too slow per octet for the consumer x route-kind cross product
+    fn cross_ok(&self) -> bool {
+        !self.slow() && !matches!(self.cont, Cont::V2(_, ChunkSize::C64B))
+    }
+}
+
+struct ConsKeys {
+    signers: Vec<SignedSecretKey>,
+    verifiers: Vec<SignedPublicKey>,
+    recipient: SignedSecretKey,
+    recipient_pub: SignedPublicKey,
+}
+
+/// LibrePGP OCB encrypted data packet body, version 1 (draft-koch-librepgp 5.16): the session key is
+/// used directly; nonce = IV with its low eight octets XORed with the chunk index; associated data
+/// 0xD4 01 sym 02 chunk-octet index (final tag: + total plaintext octets).
+fn gnupg_ocb_encrypt(sym: u8, chunk_octet: u8, iv: &[u8; 15], key: &[u8], data: &[u8]) -> Option<Vec<u8>> {
+    let cs = 1usize << (chunk_octet as usize + 6);
+    let mut out = Vec::with_capacity(data.len() + data.len() / cs * 16 + 64);
+    out.extend_from_slice(&[1u8, sym, 2, chunk_octet]);
+    out.extend_from_slice(iv);
+    let nonce_for = |idx: u64| {
+        let mut n = iv.to_vec();
+        for (i, b) in idx.to_be_bytes().iter().enumerate() {
+            n[7 + i] ^= b;
+        }
+        n
+    };
+    let ad_for = |idx: u64| {
+        let mut ad = vec![0xD4u8, 1, sym, 2, chunk_octet];
+        ad.extend(idx.to_be_bytes());
+        ad
+    };
+    let mut idx = 0u64;
+    for c in data.chunks(cs) {
+        out.extend(rfc::sym::aead_seal(sym, 2, key, &nonce_for(idx), &ad_for(idx), c)?);
+        idx += 1;
+    }
+    let mut ad = ad_for(idx);
+    ad.extend((data.len() as u64).to_be_bytes());
+    out.extend(rfc::sym::aead_seal(sym, 2, key, &nonce_for(idx), &ad, &[])?);
+    Some(out)
+}
+
+/// Builds the message of a consumer configuration (outside every measured region).
+fn build_cons(cfg: &ConsCfg, total: u64, k: &ConsKeys) -> Result<Vec<u8>, String> {
+    match cfg.cont {
+        Cont::Sed | Cont::G20(_) => {
+            let inner_cfg = ConsCfg { cont: Cont::Plain, armored: false, ..*cfg };
+            let inner = build_cons(&inner_cfg, total, k)?;
+            let (tag, body) = match cfg.cont {
+                Cont::Sed => (9u8, rfc::sym::sed_encrypt(7, &SK16, &[0x42; 16], &inner)),
+                Cont::G20(c) => (20u8, gnupg_ocb_encrypt(7, c, &[0x24; 15], &SK16, &inner)),
+                _ => unreachable!(),
+            };
+            drop(inner);
+            let body = body.ok_or("reference encryption failed")?;
+            let mut out = hdr_new5(tag, u32::try_from(body.len()).map_err(|_| "too long")?);
+            out.reserve_exact(body.len());
+            out.extend_from_slice(&body);
+            Ok(out)
+        }
+        _ => {
+            let mut out: Vec<u8> = Vec::new();
+            build_cons_lib(cfg, total, k, &mut out).map_err(|e| format!("build: {e}"))?;
+            Ok(out)
+        }
+    }
+}
+
+fn build_cons_lib(cfg: &ConsCfg, total: u64, k: &ConsKeys, out: &mut Vec<u8>) -> pgp::errors::Result<()> {
+    let src = PatternSource::new(total, 11);
+    let b = MessageBuilder::from_reader("", src);
+    let pw = Password::from("pw");
+    macro_rules! finish {
+        ($b:ident) => {{
+            if let Some(c) = cfg.comp {
+                $b.compression(c);
+            }
+            if cfg.text {
+                // the pattern source is printable ASCII without line ends: one long line
+                $b.sign_text();
+                $b.data_mode(DataMode::Utf8)?;
+            }
+            for s in k.signers.iter().take(cfg.nsig) {
+                $b.sign(&s.primary_key, Password::empty(), HashAlgorithm::Sha256);
+            }
+            if cfg.armored {
+                $b.to_armored_writer(ChaCha8Rng::seed_from_u64(3), ArmorOptions::default(), out)
+            } else {
+                $b.to_writer(ChaCha8Rng::seed_from_u64(3), out)
+            }
+        }};
+    }
+    match cfg.cont {
+        Cont::V1 => {
+            let mut b = b.seipd_v1(ChaCha8Rng::seed_from_u64(4), SymmetricKeyAlgorithm::AES128);
+            b.set_session_key(SK16.to_vec().into())?;
+            b.encrypt_with_password(cheap_s2k(), &pw)?;
+            b.encrypt_to_key(ChaCha8Rng::seed_from_u64(6), &k.recipient_pub.public_subkeys[0])?;
+            finish!(b)
+        }
+        Cont::V2(aead, chunk) => {
+            let mut b = b.seipd_v2(ChaCha8Rng::seed_from_u64(4), SymmetricKeyAlgorithm::AES128, aead, chunk);
+            b.set_session_key(SK16.to_vec().into())?;
+            b.encrypt_with_password(ChaCha8Rng::seed_from_u64(5), cheap_s2k(), &pw)?;
+            b.encrypt_to_key(ChaCha8Rng::seed_from_u64(6), &k.recipient_pub.public_subkeys[0])?;
+            finish!(b)
+        }
+        _ => {
+            let mut b = b;
+            finish!(b)
+        }
+    }
+}
+
+/// how an encrypted message is opened
+#[derive(Clone, Copy, Debug, PartialEq, Eq, Hash)]
+enum Route {
+    NotEncrypted,
+    /// `decrypt_the_ring` with a session key / the message password / the recipient key, options
+    /// assembled as OPTS_VARIANTS[i] (SEIPDv1 in streaming mode)
+    RingSessionKey(usize),
+    RingPassword(usize),
+    RingSecretKey(usize),
+    /// the convenience entry points (default options)
+    SessionKeyDefault,
+    PasswordDefault,
+    SecretKeyDefault,
+}
+
+impl Route {
+    fn kind(&self) -> &'static str {
+        match self {
+            Route::NotEncrypted => "not-encrypted",
+            Route::RingSessionKey(_) => "decrypt_the_ring(session-key)",
+            Route::RingPassword(_) => "decrypt_the_ring(password)",
+            Route::RingSecretKey(_) => "decrypt_the_ring(secret-key)",
+            Route::SessionKeyDefault => "decrypt_with_session_key",
+            Route::PasswordDefault => "decrypt_with_password",
+            Route::SecretKeyDefault => "decrypt(secret-key)",
+        }
+    }
+    fn variant(&self) -> Option<usize> {
+        match self {
+            Route::RingSessionKey(v) | Route::RingPassword(v) | Route::RingSecretKey(v) => Some(*v),
+            _ => None,
+        }
+    }
+    fn name(&self) -> String {
+        match self.variant() {
+            Some(v) => format!("{}[{}]", self.kind(), OPTS_VARIANTS[v]),
+            None => self.kind().to_string(),
+        }
+    }
+}
+
+/// option sets that enable the container at all
+fn variants_for(cont: Cont) -> &'static [usize] {
+    match cont {
+        Cont::Sed => &[2, 3, 4, 5],    // those with enable_legacy
+        Cont::G20(_) => &[1, 3, 4, 5], // those with enable_gnupg_aead
+        _ => &[0, 1, 2, 3, 4, 5],
+    }
+}
+
+/// the route kinds of a container, `v` filled in by the caller. SEIPDv1 through the convenience
+/// entry points is the documented whole-message buffering (CheckFirst with the default limit): not
+/// a streaming path, covered by W3 (c).
+fn route_kinds(cont: Cont) -> Vec<fn(usize) -> Route> {
+    match cont {
+        Cont::Plain => vec![|_| Route::NotEncrypted],
+        Cont::V1 => vec![Route::RingSessionKey, Route::RingPassword, Route::RingSecretKey],
+        Cont::V2(..) => vec![
+            |_| Route::SessionKeyDefault,
+            Route::RingPassword,
+            |_| Route::SecretKeyDefault,
+            Route::RingSessionKey,
+            |_| Route::PasswordDefault,
+            Route::RingSecretKey,
+        ],
+        Cont::Sed | Cont::G20(_) => vec![Route::RingSessionKey],
+    }
+}
+
+fn session_key_for(cont: Cont) -> PlainSessionKey {
+    match cont {
+        Cont::V2(..) => PlainSessionKey::V6 { key: SK16.to_vec().into() },
+        Cont::G20(_) => PlainSessionKey::V5 { key: SK16.to_vec().into() },
+        _ => PlainSessionKey::V3_4 { sym_alg: SymmetricKeyAlgorithm::AES128, key: SK16.to_vec().into() },
+    }
+}
+
+#[derive(Clone, Copy, Debug, PartialEq, Eq, Hash)]
+enum Cons {
+    Read64K,
+    ReadSmall,
+    BufAll,
+    BufPart,
+    IoCopy,
+    TakePrefix,
+    VerifyRead,
+    ReadVerify,
+    ReadVerifyNested,
+    EdataRead,
+    EdataBuf,
+}
+
+impl Cons {
+    const ALL: [Cons; 11] = [
+        Cons::Read64K,
+        Cons::ReadSmall,
+        Cons::BufAll,
+        Cons::BufPart,
+        Cons::IoCopy,
+        Cons::TakePrefix,
+        Cons::VerifyRead,
+        Cons::ReadVerify,
+        Cons::ReadVerifyNested,
+        Cons::EdataRead,
+        Cons::EdataBuf,
+    ];
+    fn name(&self) -> &'static str {
+        match self {
+            Cons::Read64K => "read-64KiB",
+            Cons::ReadSmall => "read-509B",
+            Cons::BufAll => "fill_buf+consume-all",
+            Cons::BufPart => "fill_buf+consume-part",
+            Cons::IoCopy => "io-copy",
+            Cons::TakePrefix => "take-256KiB+drop",
+            Cons::VerifyRead => "verify_read",
+            Cons::ReadVerify => "read+verify",
+            Cons::ReadVerifyNested => "fill_buf+verify_nested",
+            Cons::EdataRead => "edata-decrypt+read",
+            Cons::EdataBuf => "edata-decrypt+fill_buf",
+        }
+    }
+    fn needs_signature(&self) -> bool {
+        matches!(self, Cons::VerifyRead | Cons::ReadVerify | Cons::ReadVerifyNested)
+    }
+    fn on_edata(&self) -> bool {
+        matches!(self, Cons::EdataRead | Cons::EdataBuf)
+    }
+    fn applies(&self, cfg: &ConsCfg) -> bool {
+        (!self.needs_signature() || cfg.nsig > 0) && (!self.on_edata() || cfg.cont != Cont::Plain)
+    }
+}
+
+const TAKE_PREFIX: u64 = 256 * KIB;
+
+#[derive(Clone, Copy, Debug, PartialEq, Eq, Hash)]
+enum Src {
+    /// `BufReader` (8 KiB windows) over the message
+    Windowed,
+    /// the slice itself: `fill_buf` hands out everything that is left
+    WholeSlice,
+}
+
+#[derive(Clone, Copy, Debug)]
+struct Pipeline {
+    cons: Cons,
+    route: Route,
+    src: Src,
+    /// also run at the largest size of the thorough tier
+    big: bool,
+}
+
+fn read_all<R: Read>(r: &mut R, scratch: &mut [u8]) -> Result<u64, String> {
+    let mut total = 0u64;
+    loop {
+        match r.read(scratch) {
+            Ok(0) => return Ok(total),
+            Ok(n) => total += n as u64,
+            Err(e) => return Err(format!("read after {total}: {e}")),
+        }
+    }
+}
+
+fn bufread_all<R: std::io::BufRead>(r: &mut R, part: bool) -> Result<u64, String> {
+    let mut total = 0u64;
+    loop {
+        let n = match r.fill_buf() {
+            Ok(b) => b.len(),
+            Err(e) => return Err(format!("fill_buf after {total}: {e}")),
+        };
+        if n == 0 {
+            return Ok(total);
+        }
+        let n = if part { 1 + n / 3 } else { n };
+        r.consume(n);
+        total += n as u64;
+    }
+}
+
+struct Consumed {
+    octets: u64,
+    /// Some(valid) when the consumer verifies
+    verified: Option<bool>,
+}
+
+/// One complete pipeline: parse, open the containers, consume. Everything allocated here is
+/// attributed to the library (the harness allocates nothing but short error texts).
+fn run_pipeline(cfg: &ConsCfg, p: &Pipeline, data: &[u8], k: &ConsKeys, scratch: &mut [u8]) -> Result<Consumed, String> {
+    let mut m = match (cfg.armored, p.src) {
+        (false, Src::Windowed) => Message::from_bytes(BufReader::new(data)),
+        (false, Src::WholeSlice) => Message::from_bytes(data),
+        // armored input: the explicit and the sniffing entry point, alternating with the source
+        (true, Src::Windowed) => Message::from_armor(BufReader::new(data)).map(|x| x.0),
+        (true, Src::WholeSlice) => Message::from_reader(data).map(|x| x.0),
+    }
+    .map_err(|e| format!("parse: {e}"))?;
+
+    let pw = Password::from("pw");
+    let key_pw = Password::empty();
+    if p.cons.on_edata() {
+        let Message::Encrypted { mut edata, .. } = m else {
+            return Err("not an encrypted message at the top".into());
+        };
+        let key = session_key_for(cfg.cont);
+        match p.route.variant() {
+            Some(v) => edata.decrypt_with_options(&key, mk_opts(Seipdv1ReadMode::Streaming, v)),
+            None => edata.decrypt(&key),
+        }
+        .map_err(|e| format!("edata decrypt: {e}"))?;
+        let octets = if p.cons == Cons::EdataRead { read_all(&mut edata, scratch)? } else { bufread_all(&mut edata, false)? };
+        return Ok(Consumed { octets, verified: None });
+    }
+    if m.is_encrypted() {
+        let ring_with = |v: usize| TheRing { decrypt_options: mk_opts(Seipdv1ReadMode::Streaming, v), ..Default::default() };
+        m = match p.route {
+            Route::NotEncrypted => return Err("unexpected encrypted message".into()),
+            Route::RingSessionKey(v) => m.decrypt_the_ring(TheRing { session_keys: vec![session_key_for(cfg.cont)], ..ring_with(v) }, true).map(|x| x.0),
+            Route::RingPassword(v) => m.decrypt_the_ring(TheRing { message_password: vec![&pw], ..ring_with(v) }, v % 2 == 0).map(|x| x.0),
+            Route::RingSecretKey(v) => {
+                m.decrypt_the_ring(TheRing { secret_keys: vec![&k.recipient], key_passwords: vec![&key_pw], ..ring_with(v) }, v % 2 == 1).map(|x| x.0)
+            }
+            Route::SessionKeyDefault => m.decrypt_with_session_key(session_key_for(cfg.cont)),
+            Route::PasswordDefault => m.decrypt_with_password(&pw),
+            Route::SecretKeyDefault => m.decrypt(&key_pw, &k.recipient),
+        }
+        .map_err(|e| format!("decrypt via {}: {e}", p.route.name()))?;
+    }
+    let mut guard = 0;
+    while m.is_compressed() && guard < 4 {
+        m = m.decompress().map_err(|e| format!("decompress: {e}"))?;
+        guard += 1;
+    }
+
+    let v0: &dyn VerifyingKey = &k.verifiers[0];
+    let any_valid = |m: &Message<'_>| (0..cfg.nsig).any(|i| k.verifiers.iter().take(cfg.nsig).any(|vk| m.verify_nested_explicit(i, vk).is_ok()));
+    let (octets, verified) = match p.cons {
+        Cons::Read64K => (read_all(&mut m, scratch)?, None),
+        Cons::ReadSmall => (read_all(&mut m, &mut scratch[..509])?, None),
+        Cons::BufAll => (bufread_all(&mut m, false)?, None),
+        Cons::BufPart => (bufread_all(&mut m, true)?, None),
+        Cons::IoCopy => (std::io::copy(&mut m, &mut std::io::sink()).map_err(|e| format!("io::copy: {e}"))?, None),
+        Cons::TakePrefix => {
+            // the defensive pattern of the documentation: limit the reader, then give up on the rest
+            let mut t = (&mut m).take(TAKE_PREFIX);
+            let n = read_all(&mut t, scratch)?;
+            (n, None)
+        }
+        Cons::VerifyRead => {
+            let ok = m.verify_read(v0).is_ok() || any_valid(&m);
+            // the payload size is not returned by this entry point
+            (u64::MAX, Some(ok))
+        }
+        Cons::ReadVerify => {
+            let n = read_all(&mut m, scratch)?;
+            let ok = m.verify(v0).is_ok() || any_valid(&m);
+            (n, Some(ok))
+        }
+        Cons::ReadVerifyNested => {
+            let n = bufread_all(&mut m, false)?;
+            let keys: [&dyn VerifyingKey; 2] = [&k.verifiers[0], &k.verifiers[1]];
+            let res = m.verify_nested(&keys[..cfg.nsig.clamp(1, 2)]).map_err(|e| format!("verify_nested: {e}"))?;
+            let ok = !res.is_empty() && res.iter().all(|r| matches!(r, VerificationResult::Valid(_)));
+            (n, Some(ok))
+        }
+        Cons::EdataRead | Cons::EdataBuf => unreachable!(),
+    };
+    drop(m);
+    Ok(Consumed { octets, verified })
+}
+
+/// the pipelines of one configuration: every applicable consumer once, routes / option sets / source
+/// shapes rotating with a seed dependent offset (quick); thorough: every consumer x every route kind.
+fn pipelines(cfg: &ConsCfg, off: usize, cross: bool) -> Vec<Pipeline> {
+    let kinds = route_kinds(cfg.cont);
+    let vars = variants_for(cfg.cont);
+    let mut out = vec![];
+    for (slot, cons) in Cons::ALL.iter().filter(|c| c.applies(cfg)).enumerate() {
+        let s = slot + off;
+        out.push(Pipeline {
+            cons: *cons,
+            route: kinds[s % kinds.len()](vars[(s / kinds.len() + s) % vars.len()]),
+            src: if s % 2 == 0 { Src::Windowed } else { Src::WholeSlice },
+            big: true,
+        });
+        if cross {
+            for j in 1..kinds.len() {
+                let s2 = s + j;
+                out.push(Pipeline {
+                    cons: *cons,
+                    route: kinds[s2 % kinds.len()](vars[(s2 / kinds.len() + s + 2 * j) % vars.len()]),
+                    src: if (s + j / 2) % 2 == 1 { Src::Windowed } else { Src::WholeSlice },
+                    big: false,
+                });
+            }
+        }
+    }
+    out
+}
+
+fn w3_consumers(ctx: &mut Ctx) {
+    let spec = zoo::Spec::simple(false, zoo::Alg::Ed25519Legacy, None);
+    let signers = vec![zoo::key(&spec, 0), zoo::key(&spec, 1)];
+    let recipient = zoo::key(&zoo::Spec::simple(false, zoo::Alg::Ed25519Legacy, Some(zoo::Alg::EcdhCv25519)), 0);
+    let keys = ConsKeys {
+        verifiers: signers.iter().map(|s| s.to_public_key()).collect(),
+        signers,
+        recipient_pub: recipient.to_public_key(),
+        recipient,
+    };
+    let mut scratch = vec![0u8; 64 * 1024];
+    let ocb = Cont::V2(AeadAlgorithm::Ocb, ChunkSize::default());
+    let zip = Some(CompressionAlgorithm::ZIP);
+    let c = |comp, cont, nsig, text, armored| ConsCfg { comp, cont, nsig, text, armored };
+    // (the order only spreads the expensive configurations over the shards)
+    let mut cfgs: Vec<ConsCfg> = vec![
+        c(zip, Cont::V1, 2, false, false),
+        c(zip, Cont::Plain, 1, true, false),
+        c(None, Cont::Plain, 0, false, false),
+        c(None, Cont::Plain, 1, false, false),
+        c(None, Cont::Sed, 1, false, false),
+        c(None, Cont::G20(6), 0, false, false),
+        c(None, ocb, 1, false, false),
+        c(zip, ocb, 0, false, false),
+        c(None, Cont::Plain, 2, false, true),
+    ];
+    if !ctx.quick() {
+        cfgs.push(c(Some(CompressionAlgorithm::ZLIB), Cont::V2(AeadAlgorithm::Gcm, ChunkSize::C64KiB), 1, true, false));
+        cfgs.push(c(None, Cont::V1, 1, false, true));
+        cfgs.push(c(Some(CompressionAlgorithm::BZip2), Cont::Plain, 1, false, false));
+        cfgs.push(c(None, Cont::V2(AeadAlgorithm::Eax, ChunkSize::C4MiB), 0, false, false));
+        cfgs.push(c(zip, Cont::V2(AeadAlgorithm::Ocb, ChunkSize::C64B), 2, false, false));
+        cfgs.push(c(zip, Cont::G20(10), 1, false, false));
+        cfgs.push(c(zip, Cont::Plain, 0, false, true));
+    }
+    let sizes: Vec<u64> = if ctx.quick() { vec![16 * MIB, 64 * MIB] } else { vec![16 * MIB, 64 * MIB, 256 * MIB] };
+
+    for (ci, cfg) in cfgs.iter().enumerate() {
+        if !ctx.mine() {
+            continue;
+        }
+        let name = cfg.name();
+        describe_case(&format!("W3 consumers {name}"));
+        let (off, jitter) = {
+            let mut r = ctx.rng("W3s", ci as u64);
+            (r.gen_range(0..60usize), r.gen_range(0..8192u64))
+        };
+        let pls = pipelines(cfg, off, !ctx.quick() && cfg.cross_ok());
+        // peaks[pipeline] = (payload, peak, message octets) per size
+        let mut peaks: Vec<Vec<(u64, u64, u64)>> = vec![vec![]; pls.len()];
+        let mut failed: Vec<bool> = vec![false; pls.len()];
+        for (si, &size) in sizes.iter().enumerate() {
+            if cfg.slow() && size > 64 * MIB {
+                continue;
+            }
+            // not a multiple of any buffer size (the same for every pipeline of the configuration)
+            let n = size + jitter;
+            describe_case(&format!("W3 consumers {name}: building payload {n}"));
+            let data = match build_cons(cfg, n, &keys) {
+                Ok(d) => d,
+                Err(e) => {
+                    ctx.inconclusive(format!("W3 consumers {name}: cannot build input: {e}"));
+                    failed.iter_mut().for_each(|f| *f = true);
+                    break;
+                }
+            };
+            for (pi, p) in pls.iter().enumerate() {
+                if failed[pi] || (si >= 2 && !p.big) {
+                    continue;
+                }
+                describe_case(&format!("W3 consumers {name}: {} via {} ({:?}) payload {n}", p.cons.name(), p.route.name(), p.src));
+                let (r, st) = measure_alloc(|| crate::core::guard(|| run_pipeline(cfg, p, &data, &keys, &mut scratch)));
+                ctx.eval();
+                dbg_line!("W3s {:34} {:24} {:45} {:10?} n={:10} msg={:10} peak={:10} total={} count={} -> {:?}", name, p.cons.name(), p.route.name(), p.src, n, data.len(), st.peak, st.total, st.count, r.as_ref().ok().map(|x| x.as_ref().map(|c| (c.octets, c.verified))));
+                let expect = match p.cons {
+                    Cons::TakePrefix => n.min(TAKE_PREFIX),
+                    _ => n,
+                };
+                match r {
+                    Ok(Ok(c)) => {
+                        let size_ok = match p.cons {
+                            Cons::VerifyRead => true,
+                            // the decrypted packet stream: the payload plus framing (or its compressed form)
+                            Cons::EdataRead | Cons::EdataBuf => c.octets >= if cfg.comp.is_some() { expect / 64 } else { expect },
+                            _ => c.octets == expect,
+                        };
+                        if !size_ok {
+                            ctx.inconclusive(format!("W3 consumers {name}/{}: released {} of {expect} octets (content is C01/C09's business)", p.cons.name(), c.octets));
+                            failed[pi] = true;
+                        } else if c.verified == Some(false) {
+                            ctx.inconclusive(format!("W3 consumers {name}/{}: the signature did not verify (C09's business)", p.cons.name()));
+                            failed[pi] = true;
+                        } else {
+                            peaks[pi].push((n, st.peak, data.len() as u64));
+                        }
+                    }
+                    Ok(Err(e)) => {
+                        ctx.inconclusive(format!("W3 consumers {name}/{} via {}: {e}", p.cons.name(), p.route.name()));
+                        failed[pi] = true;
+                    }
+                    Err(pn) => {
+                        ctx.note(format!("W3 consumers {name}/{} panicked at {} (see C04/C09)", p.cons.name(), pn.short_loc()));
+                        failed[pi] = true;
+                    }
+                }
+            }
+        }
+        let mut worst_all = 0u64;
+        for (pi, p) in pls.iter().enumerate() {
+            if failed[pi] || peaks[pi].len() < 2 {
+                continue;
+            }
+            worst_all = worst_all.max(judge_consumer(ctx, cfg, p, &peaks[pi]));
+            ctx.cover(&("W3s", &name, p.cons, p.route, p.src));
+            ctx.seen("W3.consumer", p.cons.name());
+            ctx.seen("W3.consumer.routes", p.route.kind());
+            if let Some(v) = p.route.variant() {
+                ctx.seen("W3.consumer.options", OPTS_VARIANTS[v]);
+            }
+            ctx.seen("W3.consumer.sources", format!("{:?}{}", p.src, if cfg.armored { "/armored" } else { "" }));
+            ctx.tally("W3.consumer.pipelines-judged", 1);
+        }
+        ctx.seen("W3.consumer.configs", name.clone());
+        ctx.seen("W3.consumer.peak(bucket)", format!("{name}: <= {} KiB", (worst_all.div_ceil(KIB)).next_power_of_two()));
+    }
+}
+
+/// Same criterion as `judge_stream`; returns the worst peak.
+fn judge_consumer(ctx: &mut Ctx, cfg: &ConsCfg, p: &Pipeline, peaks: &[(u64, u64, u64)]) -> u64 {
+    let series: Vec<_> = peaks.iter().map(|(n, p, w)| json!({"payload": n, "peak": p, "message_bytes": w})).collect();
+    let replay = || json!({"config": cfg.name(), "consumer": p.cons.name(), "route": p.route.name(), "source": format!("{:?}", p.src), "series": series});
+    let base = peaks[0].1;
+    for (n, pk, _) in &peaks[1..] {
+        if *pk > base + STREAM_GROWTH {
+            ctx.violation(
+                format!("C19/W3/consumer-peak-grows-with-message/{}/{}", p.cons.name(), cfg.name()),
+                format!(
+                    "{} (opened via {}, source {:?}): peak allocation {pk} for {n} payload octets vs {base} for {} (allowed growth 1 MiB): {}",
+                    p.cons.name(),
+                    p.route.name(),
+                    p.src,
+                    peaks[0].0,
+                    serde_json::to_string(&series).unwrap()
+                ),
+                replay(),
+            );
+            break;
+        }
+    }
+    let worst = peaks.iter().map(|x| x.1).max().unwrap_or(0);
+    if worst > STREAM_ABS_CAP + cfg.fixed() {
+        ctx.violation(
+            format!("C19/W3/consumer-peak-absolute/{}/{}", p.cons.name(), cfg.name()),
+            format!("{} (opened via {}): peak allocation {worst} exceeds 32 MiB + documented buffers {}: {}", p.cons.name(), p.route.name(), cfg.fixed(), serde_json::to_string(&series).unwrap()),
+            replay(),
+        );
+    }
+    if ctx.samples.len() < 4 && p.cons.needs_signature() {
+        ctx.sample(json!({"family": "W3s", "case": replay()}));
+    }
+    worst
+}
+
+// ------------------------------------------------------------------------------------------
 // W4: key-derivation ceilings
 
 #[derive(Clone, Copy, Debug, PartialEq, Eq)]
@@ -2938,6 +3585,9 @@ pub fn run(ctx: &mut Ctx) {
     }
     if want("W3") {
         w3(ctx);
+    }
+    if want("W3") || want("W3s") {
+        w3_consumers(ctx);
     }
     if want("W4") {
         w4(ctx);
